@@ -67,6 +67,9 @@ def handwritten(did):
     mk("u16", [("Half", 32767, "!0 >> 1", False), ("More", 0, None, False), ("Small", 5, "!0 % 10", False)])
     mk("i8", [("A", -3, "-3", False), ("B", 0, None, False), ("Hole", 40, "40", True), ("C", 0, None, False), ("D", 0, None, False)])
     mk("u16", [("Hole0", 9, "9", True), ("A", 0, None, False), ("Hole1", 300, "0x12C", True), ("Hole2", 0, None, True), ("B", 0, None, False)])
+    # a full byte: 256 variants on repr(u8), every value taken (some disabled); more variants than a byte on repr(u16)
+    mk("u8", [("V%d" % k, 0, None, k % 37 == 5) for k in range(256)])
+    mk("u16", [("W%d" % k, 0, None, k % 41 == 7) for k in range(300)])
     return out
 
 
